@@ -211,6 +211,14 @@ func (e *Ev) callStatic(fn *types.Func, recv *Term, args []Term, n *ast.CallExpr
 	b := e.g().C.forFunc(key)
 	fd := e.g().P.Funcs[key]
 	sig := fn.Type().(*types.Signature)
+	if !e.spec && !e.quiet {
+		// ghost call counter of the path (spec builtin calls("KEY"))
+		n0 := 0
+		if t, ok := e.st.named["$calls:"+key]; ok {
+			fmt.Sscanf(t.S, "%d", &n0)
+		}
+		e.st.named["$calls:"+key] = Term{S: fmt.Sprint(n0 + 1), Sort: sInt}
+	}
 	if b == nil {
 		e.g().errorf("%s: call to %s which has no contract", e.u.name, key)
 		return e.freshResults(sig, key)
